@@ -47,7 +47,6 @@ const rule = "multi-client histories against the real NFSv4.0 and NFSv4.1 progra
 const (
 	sigSharedLO41 = "nfs41 CLOSE with a lock-owner shared by two open-owners of one file panics"
 	sigSharedLO40 = "nfs40 CLOSE with a lock-owner shared by two open-owners of one file panics"
-	sigFreeHeld41 = "nfs41 FREE_STATEID of a lock state ID that still holds locks panics"
 )
 
 var (
@@ -291,6 +290,27 @@ func TestHarness(t *testing.T) {
 			report(p.ops, out, "")
 		}
 	}
+	if prop == "C20" {
+		// concurrent LOCKs of two clients on one file (stress; implementation only)
+		iters := 4000
+		if o.Tier == "thorough" {
+			iters = 30000
+		}
+		n2, detail := raceProbe(iters)
+		res.Histogram["race-lock-iterations"] += iters
+		res.Evaluations += iters
+		if n2 == 0 && detail == "" {
+			iters *= 25
+			n2, detail = raceProbePool(iters)
+			res.Histogram["race-pool-lock-iterations"] += iters
+			res.Evaluations += iters
+		}
+		if n2 > 0 || (detail != "" && n2 == 0) {
+			res.Report(hx.Finding{Kind: "violation", Property: "C20", What: fmt.Sprintf("%s (%d of %d iterations)", detail, n2, iters),
+				Name: "C20 monitor: two owners never both hold an exclusive lock on a common byte (concurrent LOCK requests of two NFSv4.1 clients, real goroutines)",
+				History: []string{"race-probe: v41, two clients OPEN file 0, then concurrently LOCK WRITE [0,10)"}, Sig: hx.Sig("C20", "nfsstate", "race-lock")})
+		}
+	}
 	for _, h := range regressionHistories {
 		out := runHistory(t, h, drv, nil, 0)
 		account(&out)
@@ -300,9 +320,9 @@ func TestHarness(t *testing.T) {
 		}
 	}
 
-	n := 320
+	n := 1200
 	if o.Tier == "thorough" {
-		n = 2500
+		n = 4000
 	}
 	n *= o.Scale
 	if v := os.Getenv("NFSSTATE_N"); v != "" {
@@ -372,17 +392,14 @@ type probe struct {
 	ops             []string
 }
 
-// The three known findings; each is a dedicated history that the random
-// generator cannot produce (it never lets one lock-owner lock one file through
-// two open-owners, never asks for offset 2^64-1 with the all-ones length, and
-// never frees a lock state ID that holds locks).
+// The known findings; each is a dedicated history that the random generator
+// cannot produce (it never lets one lock-owner lock one file through two
+// open-owners and never asks for offset 2^64-1 with the all-ones length).
 var probes = []probe{
 	{"C18", sigSharedLO41, "one lock-owner locks a file through two open-owners, then one of them closes (NFSv4.1)", []string{
 		"v41", "reg 0 0", "open 1 0 0 1 3 0 h 2 0", "lock 2 1 0 2 0 5", "open 3 0 0 2 3 0 h 2 0", "lock 4 3 0 2 10 5", "close 3"}},
 	{"C18", sigSharedLO40, "one lock-owner locks a file through two open-owners, then one of them closes (NFSv4.0)", []string{
 		"v40", "reg 0 0", "open 1 0 0 1 3 0 n 2 0", "oconf 1", "lock 2 1 0 2 0 5", "open 3 0 0 2 3 0 n 2 0", "oconf 3", "lock 4 3 0 2 10 5", "close 3"}},
-	{"C18", sigFreeHeld41, "FREE_STATEID of a lock state ID whose lock-owner still holds a lock on the file (NFSv4.1)", []string{
-		"v41", "reg 0 0", "open 1 0 0 1 3 0 h 2 0", "lock 2 1 0 2 0 5", "free 2"}},
 	{"C20", knownRangeSig, "two owners ask for an exclusive lock from offset 2^64-1 to the end of the file (NFSv4.1)", []string{
 		"v41", "reg 0 0", "reg 1 0", "open 1 0 0 1 3 0 h 2 0", "open 2 1 0 1 3 0 h 2 0", "lock 3 1 0 2 max max", "lock 4 2 0 2 max max"}},
 	{"C20", knownRangeSig, "two owners ask for an exclusive lock from offset 2^64-1 to the end of the file (NFSv4.0)", []string{
@@ -394,4 +411,7 @@ var regressionHistories = [][]string{
 	// adfdf7d: NFSv4.1 LOCK new_lock_owner then LOCKT by the same owner
 	{"v41", "reg 0 0", "open 1 0 0 1 3 0 h 1 0", "lock 2 1 0 2 0 10", "lockt 0 0 0 1 2 0 10", "lockt 0 0 1 1 2 0 10"},
 	{"v40", "reg 0 0", "open 1 0 0 1 3 0 n 1 0", "oconf 1", "lock 2 1 0 2 0 10", "lockt 0 0 0 1 2 0 10", "lockt 0 0 1 1 2 0 10"},
+	// 4815fef: NFSv4.1 FREE_STATEID of a lock state ID that still holds locks (NFS4ERR_LOCKS_HELD, nothing
+	// freed: the lock still blocks another owner; after LOCKU the state ID can be freed)
+	{"v41", "reg 0 0", "open 1 0 0 1 3 0 h 2 0", "lock 2 1 0 2 0 5", "free 2", "lockt 0 0 1 2 2 0 5", "io 3 w 2 2", "locku 2 0 max", "free 2", "io 4 w 2 2"},
 }
